@@ -1,6 +1,6 @@
 /- WS.Driver.OpsApp — op group App (C13–C16): the WebSocketApp model and the trace specs.
 
-   m-app <cfg> <plan> <runs> <sched>           → trace of Model.App.runMany
+   m-app <cfg> <plan> <runs> <sched> [<kopts>] → trace of Model.App.runMany (runManyK: per-run `<iv>.<to>` joined by `!`)
      cfg   = mask,iv,to,payload,reconnect,ssl,horizon,fuel   (mask: bit i = callback i set; to: N | int;
              payload hex or -; times in ticks of 1/1024 s)
      plan  = 8 strings over {o,r,c,k} separated by `/` (`-` = empty), one per callback in Cb.all order
@@ -193,6 +193,26 @@ def ops : List String → Option String
       | none, _, _ => some "bad-cfg"
       | _, none, _ => some "bad-runs"
       | _, _, none => some "bad-sched"
+  | ["m-app", cfg, plan, runs, sched, kopts] =>
+    -- kopts = per-run keepalive settings `<iv>.<to>` joined by `!` (to: N | int), one per run
+    let ks : Option (List (Int × Option Int)) := (kopts.splitOn "!").mapM fun it =>
+      match it.splitOn "." with
+      | [iv, to] => match iv.toInt?, parseOptInt to with
+        | some i, some t => some (i, t)
+        | _, _ => none
+      | _ => none
+    match parsePlan plan with
+    | none => some "bad-plan"
+    | some pl =>
+      match parseCfg cfg pl, parseRuns runs, parseSched sched, ks with
+      | some c, some rs, some sc, some ks =>
+        if ks.length != rs.length then some "bad-kopts" else
+        let s := runManyK c (ks.zip rs) { sched := sc }
+        some (traceOut s.trace)
+      | none, _, _, _ => some "bad-cfg"
+      | _, none, _, _ => some "bad-runs"
+      | _, _, none, _ => some "bad-sched"
+      | _, _, _, none => some "bad-kopts"
   | ["m-keepalive", iv, to, hz, fuel, arr, sched] =>
     -- arr = `-` or items `<dt>.<q|d>` joined by `+` (gaps in ticks; q = pong, d = data)
     let items : Option (List (Nat × Model.Keepalive.Kind)) :=
